@@ -412,7 +412,12 @@ pub fn generic_spans(vocab: &Vocab, seen: &Seen, src: &str, dump: &Dump, out: &m
             out.insert(format!("{}-span-not-on-char-boundary", what));
             return None;
         }
-        Some(src[s.start..s.end].to_string())
+        // `Span::range` is the span as a range: the slice is taken through it
+        if s.range() != (s.start..s.end) {
+            out.insert(format!("{}-span-range-differs-from-start-end", what));
+            return None;
+        }
+        Some(src[s.range()].to_string())
     };
     let runs = text_runs(dump);
     let mut text_index = 0;
